@@ -872,13 +872,14 @@ type Hit = (String, usize, usize);
 
 /// model of both outputs: per record (id, runs as (text, start, end))
 fn min_model(case: &MinCase) -> Vec<(String, Vec<Hit>)> {
+    let policy = crate::vecs::id_policy(&case.records);
     case.records
         .iter()
         .enumerate()
         .map(|(i, r)| {
             let w = if case.w == 0 { r.len().max(case.m) } else { case.w };
             let runs = model::runs(r, w, case.m);
-            (crate::vecs::rec_id(&case.records, i), runs.iter().map(|&(v, s, e)| (String::from_utf8(model::text_of(v as u128, case.m)).unwrap(), s, e)).collect())
+            (crate::vecs::rec_id_with(policy, i), runs.iter().map(|&(v, s, e)| (String::from_utf8(model::text_of(v as u128, case.m)).unwrap(), s, e)).collect())
         })
         .collect()
 }
@@ -1289,9 +1290,10 @@ pub fn c05_record_set(tag: &str) -> Vec<Vec<u8>> {
 
 fn c05_write_input(dir: &str, records: &[Vec<u8>], container: &str) -> String {
     use crate::files::{serialise, Rec, Ser};
+    let policy = crate::vecs::id_policy(records);
     // every seventh record has an empty header line (no id): the record count must not depend on ids
     // (not when it has no bases either: a bare '>' line is the underlying parser's end-of-input marker)
-    let recs: Vec<Rec> = records.iter().enumerate().map(|(i, r)| Rec { header: if i % 7 == 3 && !r.is_empty() { String::new() } else { format!("{} some description", crate::vecs::rec_id(records, i)) }, bases: r.clone() }).collect();
+    let recs: Vec<Rec> = records.iter().enumerate().map(|(i, r)| Rec { header: if i % 7 == 3 && !r.is_empty() { String::new() } else { format!("{} some description", crate::vecs::rec_id_with(policy, i)) }, bases: r.clone() }).collect();
     let (ser, suffix, gz) = match container {
         "fasta" => (Ser::FastaLine, ".fa", false),
         "fasta-w1" => (Ser::FastaWrap(1), ".fasta", false),
